@@ -375,6 +375,33 @@ def assigned_names(stmts):
     return frozenset(out)
 
 
+NONNULL_CALLS = set()       # round 3e (additive): names of extension operations (`%c01.unbox_key`) whose result is never None
+
+
+def _nn_through(stmts, nn):
+    """round 3e (additive; only consulted when an extension module registered NONNULL_CALLS): the names known not to be
+    None where control falls out of the end of `stmts`; None when it never does.  A name assigned from a registered
+    never-None operation becomes known; any other assignment forgets the name."""
+    nn = set(nn)
+    for st in stmts:
+        if isinstance(st, (ast.Return, ast.Raise, ast.Break, ast.Continue)):
+            return None
+        if isinstance(st, ast.If):
+            t_, f_ = narrow(st.test)
+            a = _nn_through(st.body, nn | t_)
+            b = _nn_through(st.orelse, nn | f_)
+            if a is None and b is None:
+                return None
+            nn = set(b if a is None else a if b is None else (a & b))
+            continue
+        nn -= assigned_names([st])
+        if isinstance(st, ast.Assign) and len(st.targets) == 1 and isinstance(st.targets[0], ast.Name) \
+                and isinstance(st.value, ast.Call) and isinstance(st.value.func, ast.Name) \
+                and st.value.func.id in NONNULL_CALLS:
+            nn.add(st.targets[0].id)
+    return nn
+
+
 def flow_after_if(st: ast.If, nn):
     t_, f_ = narrow(st.test)
     after = set(nn)
@@ -382,7 +409,12 @@ def flow_after_if(st: ast.If, nn):
         after |= f_
     if st.orelse and terminates(st.orelse):
         after |= t_
-    return frozenset(after) - assigned_names([st])
+    out = frozenset(after) - assigned_names([st])
+    if NONNULL_CALLS:
+        extra = _nn_through([st], nn)
+        if extra:
+            out |= frozenset(extra) & assigned_names([st])
+    return out
 
 
 # ---------------------------------------------------------------------------------------- classes
@@ -918,6 +950,25 @@ class FnTranslator:
 
     def view_term(self, attr):
         return 's.self.%s' % lean_field(attr)
+
+    def _plain_dict_truth(self):
+        """round 3e: is `bool(self)` the non-emptiness of the dict the object IS?  The class is defined in the module with
+        the single base `dict` and defines neither `__bool__` nor `__len__`"""
+        owner = self.spec['qualname'].split('.')[0]
+        cdefs = [n for n in (self.tree.body if self.tree is not None else []) if isinstance(n, ast.ClassDef)
+                 and n.name == owner]
+        if len(cdefs) != 1:
+            return False
+        c = cdefs[0]
+        if not (len(c.bases) == 1 and isinstance(c.bases[0], ast.Name) and c.bases[0].id == 'dict' and not c.keywords):
+            return False
+        for n in ast.walk(c):
+            if isinstance(n, (ast.FunctionDef, ast.AsyncFunctionDef)) and n.name in ('__bool__', '__len__'):
+                return False
+            if isinstance(n, ast.Name) and n.id in ('__bool__', '__len__') and isinstance(n.ctx, ast.Store):
+                return False
+        return not any(isinstance(n, ast.Name) and n.id == 'dict' and isinstance(n.ctx, ast.Store)
+                       for n in ast.walk(self.tree))
 
     def state_attr(self, node):
         """`self.a` / `self.p.q` (a dotted path the spec maps to a state field, `paths`) -> the state attribute, or
@@ -1674,7 +1725,14 @@ class FnTranslator:
                 continue
             x, attr, key, form = b
             if stores.get(x) != 1 or x in self.spec['params'] or stores.get(key, 0) > (0 if key in self.spec['params'] else 1):
-                continue
+                # round 3e (additive): a key variable that is assigned more often is still stable behind the alias when
+                # every one of its stores is textually BEFORE the binding and the binding is not inside a loop
+                kst = [n for n in ast.walk(body) if isinstance(n, ast.Name) and n.id == key
+                       and isinstance(n.ctx, (ast.Store, ast.Del))]
+                looped = any(isinstance(lp, (ast.While, ast.For)) and any(m is st for m in ast.walk(lp))
+                             for lp in ast.walk(body))
+                if stores.get(x) != 1 or x in self.spec['params'] or looped or any(pos(n) >= pos(st) for n in kst):
+                    continue
             uses = [n for n in ast.walk(body) if isinstance(n, ast.Name) and n.id == x and isinstance(n.ctx, ast.Load)]
             if any(pos(n) <= pos(st) for n in uses):
                 raise Unsupported(st, 'item alias %s used before / in its binding' % x)
@@ -2932,6 +2990,10 @@ class ExprTr:
             return parts[0] if len(parts) == 1 else '(' + ' ∧ '.join(parts) + ')'
         if isinstance(node, ast.Constant) and isinstance(node.value, bool):
             return 'True' if node.value else 'False'
+        if isinstance(node, ast.Name) and self.env is None and self.fn.cls is not None and node.id == self.fn.self_name \
+                and node.id not in self.fn.vars and self.fn.cls.get('dict_base') and self.fn._plain_dict_truth():
+            # round 3e (additive): `if self:` of a dict subclass defining neither __bool__ nor __len__ = the dict is not empty
+            return '(%s ≠ [])' % self.fn.view_term(self.fn.cls['dict_base'])
         e, t = self.expr(node)
         return self.truthy(e, t, node)
 
